@@ -7,6 +7,7 @@ package verifiable
 
 import (
 	"encoding/json"
+	"errors"
 	"fmt"
 
 	"github.com/hyperledger/aries-framework-go/component/models/jwt"
@@ -21,6 +22,11 @@ type JWTPresClaims struct {
 
 func (jpc *JWTPresClaims) refineFromJWTClaims() {
 	raw := jpc.Presentation
+
+	// the token comes from another party: it may carry no registered claim at all, or no "vp" claim
+	if raw == nil || jpc.Claims == nil {
+		return
+	}
 
 	if jpc.Issuer != "" {
 		raw.Holder = jpc.Issuer
@@ -85,6 +91,9 @@ func decodePresJWT(vpJWT string, unmarshaller JWTPresClaimsUnmarshaller) ([]byte
 	presClaims.refineFromJWTClaims()
 
 	vpRaw := presClaims.Presentation
+	if vpRaw == nil {
+		return nil, nil, errors.New("JWT claims have no \"vp\" claim")
+	}
 
 	rawBytes, err := json.Marshal(vpRaw)
 	if err != nil {
